@@ -35,11 +35,11 @@ RULE = (
 )
 ASSUMPTIONS = [
     "regular domain only: time-like forward vectors off the z axis, rho > 0, t > 0, tau >= 0, positive scale factor, gamma >= 1, |beta| < 1 - exactly the conventions (clamps, NaN replacement, sign / copysign) that vector._lib.SympyLib documents it does not express",
-    "equal / not_equal (structural == on expressions) and isclose (sympy.Eq) are outside the claim; the scale factor is passed as a number because SympyLib.sign is declared for numbers only",
+    "equal / not_equal (structural == on expressions, nothing to substitute into) are outside the claim; isclose (an exact sympy.Eq, no tolerance) is compared only on pairs whose numeric answer does not depend on the tolerance: identical stored coordinates, and clearly different vectors; the scale factor is passed as a number because SympyLib.sign is declared for numbers only",
     "expressions are evaluated with sympy.lambdify(..., 'mpmath') at 60 digits and compared to 1e-30 with the object backend driven at 60 digits (itself tied to the definitions by C01/C02)",
 ]
 CAP_S = {"quick": 3000, "thorough": 14000}
-EXCLUDE = {"equal", "not_equal", "isclose"}
+EXCLUDE = {"equal", "not_equal"}
 SYMCLS = {("generic", 2): vector.VectorSympy2D, ("generic", 3): vector.VectorSympy3D, ("generic", 4): vector.VectorSympy4D,
           ("momentum", 2): vector.MomentumSympy2D, ("momentum", 3): vector.MomentumSympy3D, ("momentum", 4): vector.MomentumSympy4D}
 TOL = mpf(10) ** -30
@@ -103,6 +103,8 @@ def scalar_points(op, tier):
             sym("beta", -0.25)
         elif fam == "gamma":
             sym("gamma", 1.25)
+        elif fam == "rtol_atol":
+            sy["rtol"], sy["atol"] = 1e-5, 1e-8  # numbers: SympyLib.isclose documents that it cannot express a tolerance
         elif fam in ("tol0",):
             sy["tolerance"] = 0
         elif fam in ("tol_light", "tol_angle"):
@@ -153,6 +155,13 @@ def run_expr(res: Result, op, sa, sb, flavor, tier):
     firsts = regular_vectors(dimA, tier)
     if sb is None:
         pairs = [(a, None) for a in firsts]
+    elif op.name == "isclose":
+        # only pairs whose numeric answer does not depend on the tolerance: the very same stored coordinates (same system
+        # only: True) and clearly different vectors (False); every quadrant / hemisphere occurs among the first operands
+        bs = [p for p in A.partners(dimB, "thorough") if not (p.has("spacelike") or p.has("negtime") or p.has("fast"))]
+        pairs = [(a, bs[i % len(bs)]) for i, a in enumerate(firsts)]
+        if sa == sb:
+            pairs += [(a, Vec("same", a.comps, {"same"})) for a in firsts]
     elif "boost" in op.name and dimB == 3:
         bs = S._beta3_partners("thorough")
         pairs = [(a, bs[i % 3]) for i, a in enumerate(firsts)]
